@@ -253,7 +253,80 @@ func c05MemberScope(i int64, seed uint64, r *fw.Rec) {
 	r.Sample("member-scope", map[string]any{"prog": prog, "input": docJSON, "outcome": clipS(first)})
 }
 
+// context carry-over: a context-defaulting built-in reached WITHOUT a call site
+// of its own (through ~>, a partial application, a higher-order function) has
+// no context item. Built-ins called through a callee that is not a plain
+// variable, under various contexts, must not leave their context behind for it.
+var c05Indirect = []string{`"world" ~> $contains`, `$map(["-"], $uppercase ~> $substringBefore)`, `$split(?)(",")`, `$substringAfter(?)("x")`, `"a,b" ~> $split`, `$map(["l"], $substringBefore)`,
+	`$filter(["q"], $contains)`, `$pad(?)(3)`, `($f := $substring; $map([1], $f))`, `"o" ~> $substringAfter`, `$map([2], $power)`, `$lookup(?)("k")`, `$map(["k"], $lookup)`, `$each(?)(function($v){$v})`}
+
+var c05Callees = []string{`(%s ? $substring : $substringAfter)(%s)`, `($substringBefore)(%s)`, `[$contains, $split][%d](%s)`, `($pad)(%s)`, `(true ? $lookup : $sum)(%s)`, `[$power][0](%s)`, `($each)(function($v){$v})`}
+
+func c05ContextLeak(i int64, seed uint64, r *fw.Rec) {
+	rr := prng.New(seed, 0xC05D, uint64(i))
+	prog := c05Indirect[rr.Intn(len(c05Indirect))]
+	r.Begin(prog, "{}")
+	r.Tag("context-carry-over")
+	e, co := obs.Compile(prog)
+	if e == nil {
+		r.Violation("harness:indirect-program-does-not-compile", prog+": "+co.String(), nil)
+		return
+	}
+	r.Evals(1)
+	first := digest(obs.Eval(e, map[string]interface{}{}), false, false)
+	for k := 0; k < 3; k++ {
+		// a built-in called through a callee that is not a plain variable, under a
+		// context that differs from case to case
+		ctx := fmt.Sprintf("c%d,x%dl-q", rr.Intn(1000), rr.Intn(10))
+		var arg string
+		switch rr.Intn(3) {
+		case 0:
+			arg = `"x"`
+		case 1:
+			arg = "1"
+		default:
+			arg = `","`
+		}
+		tmpl := c05Callees[rr.Intn(len(c05Callees))]
+		var call string
+		switch strings.Count(tmpl, "%") {
+		case 0:
+			call = tmpl
+		case 1:
+			call = fmt.Sprintf(tmpl, arg)
+		default:
+			if strings.Contains(tmpl, "%d") {
+				call = fmt.Sprintf(tmpl, rr.Intn(2), arg)
+			} else {
+				call = fmt.Sprintf(tmpl, rr.Pick("true", "false"), arg)
+			}
+		}
+		var doc interface{} = map[string]interface{}{"s": ctx, "o": map[string]interface{}{"k": ctx}}
+		ip := "s." + call
+		if strings.Contains(call, "$lookup") || strings.Contains(call, "$each") {
+			ip = "o." + call
+		}
+		if ie, _ := obs.Compile(ip); ie != nil {
+			r.Evals(1)
+			obs.Eval(ie, doc)
+		}
+		r.Evals(1)
+		if d := digest(obs.Eval(e, map[string]interface{}{}), false, false); d != first {
+			r.Violation("outcome-changed:context-carried-over", fmt.Sprintf("%s gave %q, then %q after %s was evaluated on %v", prog, clipS(first), clipS(d), ip, doc), nil)
+			return
+		}
+	}
+	r.Nontrivial(prog + fmt.Sprint(i))
+	r.Outcome("compared")
+	r.Held()
+	r.Sample("context-carry-over", map[string]any{"prog": prog, "outcome": clipS(first)})
+}
+
 func c05Lib(i int64, seed uint64, r *fw.Rec) {
+	if i%9 == 7 {
+		c05ContextLeak(i, seed, r)
+		return
+	}
 	if i%9 == 8 {
 		c05MemberScope(i, seed, r)
 		return
